@@ -44,7 +44,7 @@ func (o Out) Died() bool { return o.Signal != "" || o.TimedOut }
 func Run(cwd, home string, env []string, args ...string) Out {
 	cmd := exec.Command(Spok(), args...)
 	cmd.Dir = cwd
-	cmd.Env = append([]string{"HOME=" + home, "PATH=/usr/bin:/bin", "NO_COLOR=1", "TERM=dumb"}, env...)
+	cmd.Env = append([]string{"HOME=" + home, "PWD=" + cwd, "PATH=/usr/bin:/bin", "NO_COLOR=1", "TERM=dumb"}, env...)
 	var so, se bytes.Buffer
 	cmd.Stdout, cmd.Stderr = &so, &se
 	pool.AsNobody(cmd)
